@@ -53,7 +53,7 @@ SPEC = dict(
         '|inputs|, |gains|, |limits| <= 1e6 (or +-DBL_MAX for "unlimited"), so no intermediate overflows',
         'fuzzy: a set counts as firing when its membership is non-zero; in the exact regime memberships are 0 or >= 1/8, so the '
         'implementation\'s activation threshold (eps) cannot matter; ec(k) = e(k) - e(k-1); rule tables are indexed [e set][ec set]; when sets '
-        'fire but every joint membership is 0 the reference expects the base gains (no rule contributes)',
+        'fire but every joint membership is 0 the reference expects the base gains (no rule contributes; this is the behaviour of the repaired library, commit e9ff772)',
         'neuron: pid_neuro.h defines w(k) through u(k) and u(k) through w(k); the reference uses the causal reading '
         'w(k) = w(k-1) + eta*e(k)*u(k-1)*x(k-1) with x(k-1) the regressors cached by the previous step (whatever entry point that was), and '
         'u(k) = sat(u(k-1) + K*sum(w x)/sum|w|) exactly as printed; steps where all three weights are 0 (0/0) are executed but the output is '
